@@ -115,3 +115,58 @@ Definition vm_dd (rOut : rule) (v m : dd) : dd := of_fun szS rOut K 0 (vm_fun v 
 Definition mv_dd (rOut : rule) (m v : dd) : dd := of_fun szS rOut K 0 (mv_fun m v) (fun _ => 0).
 
 End OnDD.
+
+(** ** distance-valued variants: a "set" maps every state to a distance or to
+    "unreachable" (None: +infinity for EV+, a negative terminal for MT). *)
+Section Dist.
+Variable St : Type.
+Variable states : list St.
+Variable R : St -> St -> bool.
+
+Definition dmin (a b : option Z) : option Z :=
+  match a, b with
+  | None, x | x, None => x
+  | Some u, Some v => Some (Z.min u v)
+  end.
+
+(** one plus the minimum distance over the predecessors *)
+Definition dpost (D : St -> option Z) : St -> option Z :=
+  fun y => fold_left (fun acc x =>
+                        if R x y then dmin acc (option_map (fun d => (d + 1)%Z) (D x)) else acc)
+                     states None.
+
+Definition dpre (D : St -> option Z) : St -> option Z :=
+  fun x => fold_left (fun acc y =>
+                        if R x y then dmin acc (option_map (fun d => (d + 1)%Z) (D y)) else acc)
+                     states None.
+
+Definition oz_eqb (a b : option Z) : bool :=
+  match a, b with
+  | None, None => true
+  | Some u, Some v => Z.eqb u v
+  | _, _ => false
+  end.
+
+Definition same_dist (D D' : St -> option Z) : bool :=
+  forallb (fun y => oz_eqb (D y) (D' y)) states.
+
+(** iterate D := min(D, post D) until nothing changes; the table of the
+    current distances is materialised at every round (as the library
+    materialises a diagram) so that a round costs |states|^2 *)
+Definition tabulate (eqb : St -> St -> bool) (D : St -> option Z) : St -> option Z :=
+  let tb := map (fun y => (y, D y)) states in
+  fun y => match find (fun p => eqb (fst p) y) tb with
+           | Some p => snd p
+           | None => D y
+           end.
+
+Fixpoint dist_bfs (step : (St -> option Z) -> St -> option Z)
+         (eqb : St -> St -> bool) (fuel : nat) (D : St -> option Z) : option (St -> option Z) :=
+  match fuel with
+  | O => None
+  | Datatypes.S f =>
+      let D' := tabulate eqb (fun y => dmin (D y) (step D y)) in
+      if same_dist D D' then Some D else dist_bfs step eqb f D'
+  end.
+
+End Dist.
